@@ -126,9 +126,15 @@ def run_mat(ctx, p):
     what = lambda: '%s(%s start) T0=%s T1=%s' % (api, 'with' if with_start else 'no', core.short(T0, 300), core.short(T1, 300))
     C = sm.SE3 if se else sm.SO3
 
+    A0, A1 = T0, T1
+    if p.get('itype'):
+        # poses whose entries are whole numbers (quarter turns, integer translations) held in integer arrays, as typed in by hand
+        A0, A1 = (np.rint(T0).astype(p['itype'][0]) if p['itype'][0] else T0), (np.rint(T1).astype(p['itype'][1]) if p['itype'][1] else T1)
+        sig['element_type'] = 'integer'
+
     def call(s):
         if api == 'base.trinterp':
-            return base.trinterp(T0 if with_start else None, T1, s)
+            return base.trinterp(A0 if with_start else None, A1, s)
         X = C(T1)
         r = X.interp(s, start=C(T0)) if with_start else X.interp(s)
         return r.A
@@ -405,6 +411,19 @@ def run(ctx):
             p['T2'] = ref.rt2tr(Ra, gen.transl(rng, hi=1e3)) if se else Ra
             p['T3'] = ref.rt2tr(Rb, gen.transl(rng, hi=1e3)) if se else Rb
         drive(RUNNERS, ctx, 'mat', p)
+        if rng.random() < 0.08:
+            # whole-number poses: a signed permutation (det +1) and the same followed by a quarter turn about a coordinate axis
+            P0 = np.eye(3)[rng.permutation(3)] * rng.choice([-1.0, 1.0], size=3)
+            if np.linalg.det(P0) < 0:
+                P0[0] = -P0[0]
+            Q = np.rint(ref.rot(np.eye(3)[rng.integers(3)], gen.sign(rng) * math.pi / 2))
+            P1 = P0 @ Q
+            ti = lambda: rng.integers(-9, 10, size=3).astype(float)
+            q = dict(api='base.trinterp', T0=ref.rt2tr(P0, ti()) if se else P0, T1=ref.rt2tr(P1, ti()) if se else P1, with_start=bool(rng.random() < 0.7), svals=svals(rng),
+                     bad_s=[BAD_S[rng.integers(len(BAD_S))]], itype=[[None, 'int64'], ['int64', 'int64'], ['int32', None], [None, 'int8']][rng.integers(4)])
+            if not q['with_start']:
+                q['T1'] = ref.rt2tr(Q, ti()) if se else Q
+            drive(RUNNERS, ctx, 'mat', q)
         if ctx.ncases % 499 == 1:
             ctx.sample(dict(case='mat', **{k: v for k, v in p.items()}), limit=4)
     for _ in range(ctx.scale(1400, 40000)):
